@@ -26,6 +26,7 @@ partial def loop (h : IO.FS.Stream) (out : IO.FS.Stream) (d : Dispatch) (W : Nat
         | some p => p
         | none => "bad-op " ++ op
       out.putStrLn (id ++ " " ++ payload)
+      out.flush
       loop h out d W
     | _ =>
       out.putStrLn (l ++ " bad-line")
